@@ -16,7 +16,7 @@ for i in ids:
 print(' '.join(seen))
 PY
 )
-  res=$(tools/exp_try.sh "$d/patch.diff" quick $ids 2>&1)
+  res=$(tools/exp_try.sh "/verif/${d}patch.diff" quick $ids 2>&1)
   if echo "$res" | grep -q VIOLATION; then
     who=$(echo "$res" | grep VIOLATION | sed -E 's/.*\[(C[0-9]+) quick exp\].*/\1/' | tr '\n' ' ')
     echo "$key CAUGHT by $who (expected: $ids)"
